@@ -119,7 +119,13 @@ def o_roundtrip(rec: Recorder, case, soft=False):
     if other is not None and name != "lmhash":
         if h.verify(other, hs, **ctx) is not True:
             rec.fail(f"C01/text-bytes/{name}", f"{name}: password as text and as encoded bytes verify differently", "roundtrip", case, repr(other), True, soft=soft)
-    elif other is not None and name == "lmhash" and isinstance(other, bytes):
+    if name == "lmhash" and not ctx.get("encoding"):
+        # letter case is folded whichever way the password arrives (text, or bytes in the OEM code page -- ASCII here)
+        for a, b in (("secret1", b"secret1"), ("MiXeD", b"mixed"), (b"lower", "LOWER")):
+            if h.verify(b, h.hash(a)) is not True:
+                rec.fail("C01/text-bytes/lmhash", "lmhash: the same ASCII password as text and as bytes (any letter case) verify differently", "roundtrip", case, repr((a, b)), True, soft=soft)
+                return
+    if other is not None and name == "lmhash" and isinstance(other, bytes):
         # lmhash takes bytes as already OEM-encoded (upper-casing of ASCII only): equivalent for ASCII text
         if secret.isascii() and h.verify(other, hs, **ctx) is not True:
             rec.fail(f"C01/text-bytes/{name}", "lmhash: ASCII password as text and bytes verify differently", "roundtrip", case, repr(other), True, soft=soft)
